@@ -116,7 +116,7 @@ def load_known(pid):
 
 
 # --------------------------------------------------------------------------- running stages
-def worker_cmd(exe, st, i, n, seed, budget, out, tier, datadir, known):
+def worker_cmd(exe, st, i, n, seed, budget, out, tier, datadir, known, extra=None):
     cmd = (exe if isinstance(exe, list) else [exe]) + ["--stage", st["name"], "--worker", "%d/%d" % (i, n), "--seed", str(seed), "--budget", str(budget),
            "--out", out, "--data", datadir, "--repo", os.path.dirname(datadir.rstrip("/"))]
     if tier == "thorough":
@@ -124,6 +124,7 @@ def worker_cmd(exe, st, i, n, seed, budget, out, tier, datadir, known):
     if known:
         cmd += ["--known", ",".join(sorted(known))]
     cmd += st.get("args", [])
+    cmd += extra or []
     return cmd
 
 
@@ -144,7 +145,7 @@ def san_env(extra=None):
     return env
 
 
-def run_stage(pid, exe, st, tier, seed, outdir, datadir, known):
+def run_stage(pid, exe, st, tier, seed, outdir, datadir, known, extra=None):
     kind = st.get("kind", "enum")
     n = st.get("workers", NCPU)
     budget = st["thorough"] if tier == "thorough" else st["quick"]
@@ -154,7 +155,7 @@ def run_stage(pid, exe, st, tier, seed, outdir, datadir, known):
         env = san_env(st.get("env"))
         if kind == "rc":
             env["RC_PARAMS"] = "seed=%d max_success=%d max_size=%d noshrink=0 verbose_progress=0" % (wseed, budget, st.get("max_size", 100))
-        cmd = worker_cmd(exe, st, i, n, wseed, budget, outdir, tier, datadir, known)
+        cmd = worker_cmd(exe, st, i, n, wseed, budget, outdir, tier, datadir, known, extra)
         lf = open(os.path.join(outdir, "%s-%d.log" % (st["name"], i)), "wb")
         procs.append((i, subprocess.Popen(cmd, stdout=lf, stderr=subprocess.STDOUT, env=env, cwd=outdir), lf, cmd))
     results = []
@@ -329,7 +330,7 @@ def main():
             if st.get("runner"):
                 res = st["runner"](ctx, exe, st, a.tier, a.seed, outdir, datadir, set(opens), pid)
             else:
-                res = run_stage(pid, exe, st, a.tier, a.seed, outdir, datadir, set(opens))
+                res = run_stage(pid, exe, st, a.tier, a.seed, outdir, datadir, set(opens), ctx.get("replay_args"))
             sev = 0
             for r in res:
                 d = r["data"]
